@@ -17,7 +17,8 @@ RULE = ("(1) every history of length D (quick 6, thorough 8) over {alloc, free o
         "rotation, then each growth kind (ensure +1/+2/+cap, alloc-triggered, with and without max_delta_cap), then a "
         "drain suffix that fills the pool and cycles every ring slot twice; (3) seeded random long histories across "
         "many growths with flag / max_delta_cap changes and injected malloc failures; (4) init / ensure_space with "
-        "block_size x count around and beyond 2^32 under a malloc that refuses > 1 GiB.  Non-trivial = the history "
+        "block_size x count around and beyond 2^32 under a malloc that refuses > 1 GiB; (5) alloc on a synthesised full "
+        "pool whose capacity + growth step wraps uint32.  Non-trivial = the history "
         "contains a successful growth while blocks are live or free cursors are rotated, or a refused operation; "
         "distinct = distinct script text")
 TRUSTED_BASE = [
@@ -128,7 +129,7 @@ def _exhaustive(depth):
 
 def _random_history(rng, name, nops, small):
     cap = rng.choice([1, 1, 2, 3, 4, 5, 7, 8, 16] if small else [1, 2, 3, 4, 8, 0, 16, 33, 100])
-    bs = rng.choice([1, 2, 3, 8, 16, 24, 100, 4096, 8193])
+    bs = rng.choice([1, 2, 3, 8, 16, 24, 100, 4096, 8191, 8192, 8193])
     lines = ["init %d %d" % (cap, bs)]
     c = cap or 8
     live = 0
@@ -151,7 +152,7 @@ def _random_history(rng, name, nops, small):
                 lines.append("free %d" % rng.below(live))
                 live -= 1
         elif r < pa + pf + 6:
-            c = c + rng.choice([0, 1, 1, 2, 3, 7, c])
+            c = c + rng.choice([0, 1, 1, 2, 3, 7, c if c < 3000 else 5])
             lines.append("ensure %d" % c)
         elif r < pa + pf + 9:
             lines.append("flag %d" % rng.choice([0, 1, 0, 2, 3]))
@@ -169,7 +170,7 @@ def _big_cases(rng, n):
     fixed = [(65536, 65536), (65537, 65536), (65535, 65537), (3, 0x55555556), (2, 1 << 31), (2, (1 << 31) + 1),
              (4, 1 << 30), (5, 1 << 30), (1, U32 - 1), (U32 - 1, 1), (U32 - 1, U32 - 1), (65537, 65535),
              (1024, 1 << 20), (1025, 1 << 20), (1, 1 << 30), (1, (1 << 30) + 1), (0, 1 << 29), (0, 1 << 27),
-             ((1 << 27), 8), ((1 << 27) + 1, 1), (6, 0x2AAAAAAB), (16, 0x10000001), (4097, 1 << 20)]
+             ((1 << 27) + 1, 8), ((1 << 27) + 1, 1), (6, 0x2AAAAAAB), (16, 0x10000001), (4097, 1 << 20)]
     for i, (cap, bs) in enumerate(fixed):
         eff = cap or 8
         tail = ["alloc"] * min(eff, 6) + ["free 0", "alloc"]
@@ -180,6 +181,10 @@ def _big_cases(rng, n):
     for i, (cap, bs, n2) in enumerate(grow):
         cases.append(_case("big-grow-%d" % i, ["init %d %d" % (cap, bs), "alloc", "ensure %d" % n2] +
                            ["alloc"] * 5 + ["free 0", "alloc", "alloc"]))
+    # capacity + growth step wrapping uint32 in alloc (synthesised full-pool state, see the driver)
+    for i, (c, m) in enumerate([(1 << 31, 0), (U32 - 1, 1), (U32 - 1, 0), (U32 - 524288, 524288), (U32 - 524289, 524288),
+                                ((1 << 31) - 1, 0), (3 << 30, 1 << 30), (3 << 30, (1 << 30) - 1), (U32 - 7, 8), (U32 - 8, 7)]):
+        cases.append(_case("big-capwrap-%d" % i, ["init 2 8", "alloc", "wrapprobe %d %d" % (c, m), "alloc", "alloc", "free 0", "alloc"]))
     # alloc-triggered growth with a wrapping slab size
     cases.append(_case("big-autogrow-0", ["init 1 1073741824", "maxdelta 0", "ensure 4", "alloc", "alloc", "alloc", "alloc",
                                          "alloc", "alloc"]))
@@ -200,18 +205,10 @@ def _big_cases(rng, n):
 
 
 def corpus_cases(ctx):
-    return [
-        # growth of a completely free pool, then fill, free one, alloc (DESIGN.md section 5)
-        _case("corpus-grow-empty", ["init 1 16", "ensure 4", "alloc", "alloc", "alloc", "alloc", "free 3", "alloc"]),
-        _case("corpus-grow-empty-rot", ["init 3 16", "alloc", "free 0", "ensure 5"] + ["alloc"] * 5 + ["free 0", "alloc", "free 2", "alloc"]),
-        _case("corpus-mul-wrap", ["init 65536 65536", "alloc", "alloc"]),
-        _case("corpus-grow-wrap", ["init 1 1073741824", "alloc", "ensure 5", "alloc", "alloc"]),
-        _case("corpus-constant", ["init 2 8", "flag 1", "alloc", "alloc", "alloc", "ensure 3", "flag 0", "alloc"]),
-        _case("corpus-maxdelta", ["init 4 8", "maxdelta 1", "alloc", "alloc", "alloc", "alloc", "alloc", "alloc", "maxdelta 0", "alloc", "alloc"]),
-        _case("corpus-fail", ["init 2 8", "alloc", "alloc", "failnext 1", "alloc", "failnext 2", "alloc", "failnext 3", "alloc",
-                              "failnext 2", "ensure 9", "alloc", "failnext 2", "init 3 3", "failnext 3", "init 3 3", "init 0 3"]),
-        _case("corpus-bs0", ["init 4 0", "alloc", "init 0 1", "alloc"]),
-    ]
+    """regression cases kept as files under corpus/C06 (replays of the defects found, failure paths, flags)"""
+    import os
+    d = os.path.join(V.VERIF, "corpus", "C06")
+    return [V.Case.load(os.path.join(d, f)) for f in sorted(os.listdir(d)) if f.endswith(".case")]
 
 
 def generate(rng, tier):
@@ -363,6 +360,17 @@ def monitor(case, lines):
             ln = nxt()
             if ln != "nopool":
                 return what + ": expected nopool, got %r" % ln
+            continue
+        if w[0] == "wrapprobe":
+            c, mdc = int(w[1]), int(w[2])
+            delta = mdc if 0 < mdc < c else c
+            ln = nxt()
+            if c == 0 or c >= U32 or c + delta < U32 or len(R.live) >= R.cap:
+                if ln != "wrapprobe skip":
+                    return what + ": expected 'wrapprobe skip', got %r" % ln
+            elif ln != "wrapprobe NULL":
+                return what + (": full pool of %d blocks, growth step %d: capacity would exceed uint32, alloc must report "
+                               "exhaustion but answered %r (used becomes capacity+1 and a live block is handed out)" % (c, delta, ln))
             continue
         if w[0] == "destroy":
             m = expect_destroy()
